@@ -22,8 +22,9 @@ ID = "C16"
 LEVEL = "exploration"
 RULE = (
     "a batch of generated values rich in sets / frozensets / dicts (str members, mixed non-orderable members, "
-    "sets of frozensets and of tuples holding frozensets, enum / dataclass members) is created in an empty "
-    "snapshot() by separate interpreter processes, one per cell of PYTHONHASHSEED in {0,1,2,3,random} x "
+    "sets of frozensets and of tuples holding frozensets, enum / dataclass members; strings with blanks and "
+    "quotes at their ends, alone and inside lists / dicts) is created in an empty snapshot() - or fixed in a "
+    "snapshot that holds another value of the same shape - by separate interpreter processes, one per cell of PYTHONHASHSEED in {0,1,2,3,random} x "
     "formatter in {black, black missing, format-command cat, format-command black}; every value is built in "
     "3 construction histories (given order, reversed order, after add/discard churn that resizes the table). "
     "Oracle: across hash seeds and construction histories the rewritten argument text is byte-identical; "
@@ -42,7 +43,8 @@ BATCH = {"quick": 60, "thorough": 1500}
 
 
 def set_values(tier):
-    strs = st.text(alphabet="abcdefgh", min_size=0, max_size=3).map(lambda s: ["str", s])
+    strs = st.one_of(st.text(alphabet="abcdefgh", min_size=0, max_size=3),
+                     st.text(alphabet="ab \"'", min_size=1, max_size=4)).map(lambda s: ["str", s])
     ints = st.integers(-5, 20).map(lambda i: ["int", i])
     leaf = st.one_of(strs, strs, ints, st.just(["none"]), gv.enums(), gv.flags(),
                      st.binary(max_size=2).map(lambda b: ["bytes", list(b)]),
@@ -67,6 +69,12 @@ def set_values(tier):
         st.lists(st.lists(strs, min_size=2, max_size=5).map(lambda xs: ["frozenset", xs]), min_size=2,
                  max_size=4).map(lambda xs: ["set", xs]),
     )
+    # strings on their own and as members of ordinary containers: a formatter treats a lone string statement
+    # differently (docstring handling), which must not show in the generated code
+    padded = st.text(alphabet="ab \"'", min_size=1, max_size=6).map(lambda s: ["str", s])
+    top = st.one_of(top, top, top, padded, st.lists(padded, min_size=1, max_size=3).map(lambda xs: ["list", xs]),
+                    st.lists(st.tuples(strs, padded).map(list), min_size=1, max_size=3,
+                             unique_by=lambda kv: kv[0][1]).map(lambda kv: ["dict", kv]))
     return top.filter(gv.sound)
 
 
@@ -95,7 +103,7 @@ def module_for(case, variant):
     return ("from inline_snapshot import snapshot\nfrom vf_prelude import *\n\n\n"
             "def churn(ctor, items):\n    s = set(range(1000, 1400))\n    for i in range(1000, 1400):\n"
             "        s.discard(i)\n    for x in items:\n        s.add(x)\n    return ctor(s) if ctor is frozenset else s\n\n\n"
-            f"def test_a():\n    assert {r(d)} == snapshot()\n")
+            f"def test_a():\n    assert {r(d)} == snapshot({case.get('prev') or ''})\n")
 
 
 def nontrivial(d):
@@ -115,7 +123,16 @@ def make_batch(tier, seed, n):
               phases=[__import__("hypothesis").Phase.generate])
     @given(set_values(tier))
     def collect(v):
-        cases.append({"value": v, "variants": 3})
+        # the snapshot is empty (create) or holds another value of the same shape (fix replaces leaves in place)
+        prev = None
+        if len(cases) % 2 == 1 and v[0] in ("str", "list", "dict"):
+            if v[0] == "str":
+                prev = "'x'"
+            elif v[0] == "list":
+                prev = "[" + ", ".join(f"'x{i}'" for i in range(len(v[1]))) + "]"
+            else:
+                prev = "{" + ", ".join(f"{gv.natural(k)}: 'x{i}'" for i, (k, _x) in enumerate(v[1])) + "}"
+        cases.append({"value": v, "variants": 3, "prev": prev})
 
     collect()
     return cases
